@@ -14,6 +14,7 @@
              rtcsctptransport.py) — ordering decisions must not change at the 2^16 / 2^32 wrap
   C01-ABANDON (rules C06-WHOLE / C06-RECV) abandoning a partially reliable message marks exactly that message; a FORWARD-TSN
              at the receiver leaves the messages of reliable streams deliverable exactly once, intact, in order
+  C01-RETX    = C02-T3 / C02-KICK / C02-FS (a lost chunk keeps being retransmitted; without it "every message is delivered" fails silently)
 Does not decide: reassembly/ordering under loss and reordering schedules.
 """
 from __future__ import annotations
@@ -244,6 +245,11 @@ def run(rep: Report, prog: Program, tier: str) -> None:
     from .common import import_rules
     import_rules(rep, prog, tier, PROP, "C01-ABANDON", "C06", ["C06-WHOLE", "C06-RECV"],
                  "abandonment / FORWARD-TSN handling never loses or blocks messages of other (reliable) channels (rules C06-WHOLE, C06-RECV)", 100)
+
+    # "every message is delivered" needs the retransmission machinery to keep running: shared with C02
+    import_rules(rep, prog, tier, PROP, "C01-RETX", "C02", ["C02-T3", "C02-KICK", "C02-FS"],
+                 "lost chunks keep being retransmitted: T3 is (re)armed whenever data is outstanding, queued data is kicked, flight-size accounting cannot stall "
+                 "the sender (rules C02-T3, C02-KICK, C02-FS)", 10)
 
     # ---------------- C01-REASM: _receive_data_chunk evaluated over every arrival order of small interleaved message sets
     rep.rule("C01-REASM", "every arrival order (with a duplicate) of interleaved messages on two streams: exactly once, intact, in order, nothing left behind", min_instances=100)
